@@ -255,7 +255,7 @@ func (r *runner) generateModelled() {
 	for _, s := range enumerate("@! r", 4) {
 		r.runCase(caseJSON{Kind: "op", InHex: hexOf(s), Family: "exhaustive"})
 	}
-	for _, s := range enumerate("%{}.a", 5) {
+	for _, s := range enumerate("%{}.a", r.cfg.Pick(4, 6)) {
 		r.runCase(caseJSON{Kind: "macro", InHex: hexOf(s), Family: "exhaustive"})
 	}
 	// every variable in a macro, with and without key, in three spellings
@@ -349,8 +349,8 @@ func (r *runner) generateModelled() {
 			Buffered: r.rng.Int63n(30), Blen: r.rng.Int63n(30), Family: "random"})
 	}
 	// memoize roles sharing a text
-	texts := []string{"foo", "bar", "abc", "x"}
-	for i := 0; i < n(60, 800); i++ {
+	texts := []string{"foo", "bar", "abc", "x", "re:foo", "pm:foo", "re:pm:foo", "binrx:foo", "pmf:foo", "schema:foo"}
+	for i := 0; i < n(160, 2000); i++ {
 		k := 2 + r.rng.Intn(4)
 		var calls []memoCall
 		for j := 0; j < k; j++ {
